@@ -17,6 +17,13 @@ pub uninterp spec fn g_has_match(rid: int) -> bool;
 pub uninterp spec fn g_close_ok(rid: int) -> bool;
 /// ghost identity of a reader value of any type
 pub uninterp spec fn rd_id<R>(r: &R) -> int;
+/// ghost (C15): while the data for this path is searched, the consumer of stdout goes away, i.e. the search
+/// ends with a broken-pipe error
+pub uninterp spec fn g_sfbp(p: &crate::envstd::path::Path) -> bool;
+/// ghost: the file can be opened / the command can be started / a decompression reader can be built
+pub uninterp spec fn g_open_ok() -> bool;
+pub uninterp spec fn g_spawn_ok() -> bool;
+pub uninterp spec fn g_dec_build_ok(p: &crate::envstd::path::Path) -> bool;
 
 pub mod envstd {
     use vstd::prelude::*;
@@ -32,11 +39,16 @@ pub mod envstd {
         use vstd::prelude::*;
         #[derive(Debug)]
         pub struct Error { _p: u8 }
-        pub enum ErrorKind { Other, NotFound }
+        #[derive(Clone, Copy, PartialEq, Eq)]
+        pub enum ErrorKind { Other, NotFound, BrokenPipe }
         pub type Result<T> = core::result::Result<T, Error>;
         impl Error {
+            /// ghost: the error is "the consumer of stdout went away" (ErrorKind::BrokenPipe)
+            pub uninterp spec fn bp(&self) -> bool;
             #[verifier::external_body]
-            pub fn new(kind: ErrorKind, msg: String) -> Error { unimplemented!() }
+            pub fn new(kind: ErrorKind, msg: String) -> (r: Error) ensures r.bp() == (kind is BrokenPipe) { unimplemented!() }
+            #[verifier::external_body]
+            pub fn kind(&self) -> (r: ErrorKind) ensures (r is BrokenPipe) == self.bp() { unimplemented!() }
         }
         pub trait Read {}
         pub struct Stdin { _p: u8 }
@@ -54,7 +66,7 @@ pub mod envstd {
         pub struct File { _p: u8 }
         impl File {
             #[verifier::external_body]
-            pub fn open<P>(p: P) -> super::io::Result<File> { unimplemented!() }
+            pub fn open<P>(p: P) -> (r: super::io::Result<File>) ensures (r is Ok) == crate::g_open_ok() { unimplemented!() }
         }
     }
     pub mod process {
@@ -203,7 +215,7 @@ pub mod grep {
             { unimplemented!() }
             /// starting the command may fail; nothing is assumed about the reader it yields
             #[verifier::external_body]
-            pub fn build(&self, command: &mut Command) -> (r: Result<CommandReader, CommandError>) { unimplemented!() }
+            pub fn build(&self, command: &mut Command) -> (r: Result<CommandReader, CommandError>) ensures (r is Ok) == g_spawn_ok() { unimplemented!() }
         }
         impl CommandReader {
             #[verifier::external_body]
@@ -238,7 +250,7 @@ pub mod grep {
             pub open spec fn v_matcher(&self) -> DecompressionMatcher { self.matcher }
             pub fn get_matcher(&self) -> (r: &DecompressionMatcher) ensures *r == self.v_matcher() { &self.matcher }
             #[verifier::external_body]
-            pub fn build(&self, path: &Path) -> (r: Result<DecompressionReader, CommandError>) { unimplemented!() }
+            pub fn build(&self, path: &Path) -> (r: Result<DecompressionReader, CommandError>) ensures (r is Ok) == g_dec_build_ok(path) { unimplemented!() }
         }
         impl DecompressionReader {
             #[verifier::external_body]
